@@ -10,6 +10,11 @@ def run(ctx):
     n = 150 if ctx.tier == "quick" else 4000
     msgs = [b"", b".", b"\r", b"\n", b"\r\n", b".\r\n", b"\r\n.\r\n", b"\r\n.\r\nQUIT\r\n", b"a\r\n.\r\nMAIL FROM:<x@y>\r\n",
             b"..", b"a\n.\n", b"a\r.\r", b"\r\r\n.", b"x" * 70000 + b"\r\n." * 3000]
+    # alignment hazards for any internal chunking: period-3 / period-1 patterns cross every block boundary at every phase
+    msgs += [b"\r\n." * 70000, b"." * 100000, b".\r\n" * 50000, b"a\r\n.\r\n" * 30000]
+    for k in range(9, 18):
+        body = bytes(ctx.rng.choice(b"\r\n..a") for _ in range(2 ** k + ctx.rng.randint(0, 7)))
+        msgs.append(body)
     msgs += c03.gen_random(ctx, n, 3000)
     msgs += [bytes(t) for t in list(c03.gen_exhaustive(4))[::2]][:n]
     scs = []
